@@ -114,12 +114,13 @@ claim(
 claim(
     "C19",
     "other",
-    "Narrow (location bounds of parser errors only). For every lexer state with <= 4 tokens satisfying the data invariant (cursor <= len, every token inside entire_span unless expanded) and every "
-    "start <= cursor: current_span/prev_span/span_from do not panic (Span::subspan's assertions cannot fire) and return a span inside entire_span; current_span covers exactly the current character; "
-    "Lexer::new_from_string establishes the invariant for all 156 small strings and a symbolic span. Bounded in buffer length only (functions are loop-free). NOT covered: the (message, span) construction "
+    "Narrow (location bounds of parser errors only). Unbounded (Verus, unit `lexer`, the real lexer.rs functions extracted by span): for every lexer state - any buffer length - satisfying the data invariant "
+    "(every token inside entire_span unless expanded), span_at_index/current_span/prev_span/span_from never violate Span::subspan's assertions and return a span inside entire_span, covering exactly the "
+    "addressed character; peek/peek_n/peek_previous/peek_n_backwards/next/next_char_is/set_cursor/cursor meet the contracts every parser unit assumes. The same functions are also checked by Kani on the "
+    "unrewritten code for buffers <= 4 tokens (cross-check of the std-idiom rewrites R23-R25). Kani (bounded): Lexer::new_from_string establishes the invariant for all 156 small strings and a symbolic span. NOT covered: the (message, span) construction "
     "sites in parser and evaluator, rendering, @debug/@warn routing, quiet, stdout/stderr silence.",
     K_TRUST,
-    "Kani contracts on the Lexer span functions (symbolic tokens, positions and span)",
+    "Verus contracts on the real Lexer functions + Kani harnesses on the constructors",
     "DESIGN.md 5/C19",
 )
 
